@@ -15,9 +15,13 @@ CD = 2
 def _addc(shape):
     n = int(np.prod(shape, dtype=int))
     return B.AdditiveCondition(lambda c: (0.3 * jnp.sum(c) * jnp.arange(1.0, n + 1)).reshape(shape), shape, (CD,))
+NO_TANH = [False]  # set by rt_transformed_trees: tanh saturates to exactly 1.0 in floats, after which the inverse is infinite
+
+
 def leaf(rng, shape, allow_cond, surj=False):
     k = rng.integers(0, 6 if allow_cond else 5)
     if surj and k in (1, 2, 3): k = 0
+    if NO_TANH[0] and k == 2: k = 3
     n = int(np.prod(shape, dtype=int))
     if k == 0: return B.Affine(jnp.asarray(rng.normal(size=shape)), jnp.asarray(rng.uniform(0.5, 2.0, size=shape)))
     if k == 1: return B.Exp(shape)
@@ -115,6 +119,54 @@ def rt_trees(tier="quick", first_only=False, count=None, seed0=0):
             fails.append(dict(what=f"expression tree #{s} ({type(b).__name__} of shape {shape}, cond_shape {b.cond_shape}): " + "; ".join(r[:3]), case=dict(tree_seed=s)))
             if first_only:
                 break
+    if count is not None:
+        count.append(n)
+    return fails
+
+
+def rt_transformed_trees(tier="quick", first_only=False, count=None, seed0=0):
+    """Transformed(base, random tree): the three evaluation paths agree (sample_and_log_prob vs sample vs log_prob of the sample),
+    sample shapes are sample_shape + condition batch + event, and a batched log_prob equals the unbatched call on a slice"""
+    import jax.random as jr
+    import flowjax.distributions as D
+
+    fails = []
+    n = 30 if tier == "quick" else 150
+    NO_TANH[0] = True
+    try:
+        for s in range(seed0, seed0 + n):
+            rng = np.random.default_rng(1000 + s)
+            shape = SHAPES[rng.integers(0, len(SHAPES))]
+            try:
+                b = gen(rng, shape, 3)
+                base = D.Normal(jnp.asarray(rng.normal(size=shape)), jnp.asarray(rng.uniform(0.5, 1.5, size=shape))) if rng.random() < 0.7 else D.StudentT(jnp.full(shape, 4.0))
+                d = D.Transformed(base, b)
+                c = None if d.cond_shape is None else jnp.asarray(rng.normal(size=(3,) + d.cond_shape))
+                key = jr.PRNGKey(s)
+                ss = () if c is not None and rng.random() < 0.5 else (2,)
+                x, lp = d.sample_and_log_prob(key, ss, c)
+                x2 = d.sample(key, ss, c)
+                lp2 = d.log_prob(x, c)
+                want_shape = ss + (() if c is None else (3,)) + tuple(shape)
+                msgs = []
+                if x.shape != want_shape:
+                    msgs.append(f"sample shape {x.shape}, expected {want_shape}")
+                if not np.allclose(x, x2, rtol=1e-9, atol=1e-12):
+                    msgs.append("sample and sample_and_log_prob draw different points for the same key")
+                if not np.allclose(lp, lp2, rtol=1e-6, atol=1e-8):
+                    msgs.append(f"sample_and_log_prob reports a log-density that differs from log_prob at the sample by up to {float(jnp.max(jnp.abs(lp - lp2))):.3g}")
+                idx = tuple(0 for _ in lp.shape)
+                one = d.log_prob(x[idx], None if c is None else c[idx[-1]])
+                if not np.allclose(one, lp2[idx], rtol=1e-8, atol=1e-10):
+                    msgs.append("batched log_prob differs from the unbatched call on a slice")
+            except Exception as ex:  # noqa: BLE001
+                msgs = [f"raised {type(ex).__name__}: {str(ex).splitlines()[0][:120]}"]
+            if msgs:
+                fails.append(dict(what=f"Transformed(base, expression tree #{1000 + s} of shape {shape}): " + "; ".join(msgs[:3]), case=dict(tree_seed=1000 + s)))
+                if first_only:
+                    break
+    finally:
+        NO_TANH[0] = False
     if count is not None:
         count.append(n)
     return fails
